@@ -455,7 +455,7 @@ func genRecvCases(g *Gen, kind uint64, n int, directedRelink bool) {
 		switch c := r.Intn(100); {
 		case c < 65:
 			vb = cloneView(va)
-			mutateView(r, &vb, 1+r.Intn(6))
+			mutateViewC02(r, &vb, 1+r.Intn(6))
 		case c < 75:
 			vb = cloneView(va)
 			cls = "unchanged"
